@@ -333,10 +333,10 @@ def signature(L, c, spec, viols, after=None):
             d = c.disks[dn.encode()]
             f = next((x for x in d.files if x.sub.decode(errors="surrogateescape") == sub), None)
             e = after.get(rel)
-            if f is not None and e is not None and e[0] == "f" and e[3] is not None and c.hash_size == 16:
+            if f is not None and e is not None and e[0] == "f" and e[3] is not None:
                 cands, _ = candidates(L, c, dn, f)
                 for i, (st, pos, h) in enumerate(f.blocks):
-                    if st != C.CHG or h in (b"\0" * 16, b"\xff" * 16):
+                    if st != C.CHG or h in (b"\0" * c.hash_size, b"\xff" * c.hash_size):
                         continue
                     region = e[3][i * bs:(i + 1) * bs]
                     if any(cd[i * bs:(i + 1) * bs] == region for cd in cands):
